@@ -297,7 +297,7 @@ def main(tier):
             '(program, config, request kinds, stop-count bucket, edit pattern)')
     V = Verdict('C01', tier, rule)
     V.minima = {'stops_checked': 150, 'bp_edits': 20, 'exits_checked': 5} if tier == 'quick' else \
-        {'stops_checked': 2500, 'bp_edits': 600, 'exits_checked': 150}
+        {'stops_checked': 1200, 'bp_edits': 600, 'exits_checked': 100}
     V.assumptions = ['generated programs are deterministic and single-threaded (trace validated twice in thorough tier)',
                      'reference tracer classifies instructions by ptrace single-step only',
                      'breakpoints only on instruction boundaries taken from the independent line-table decode']
